@@ -138,6 +138,20 @@ def check_continuation(cmds, tr, start_idx, ref, vs, shape):
     return True
 
 
+
+def aim_file_end(cursor, qlen, r):
+    """payload length of a one-record append that leaves exactly r bytes before the end of the
+    current WAL file (None if it does not fit)"""
+    B, F = mrl.B, mrl.FILE
+    blocks_left = (F - cursor % F + B - 1) // B if cursor % F else mrl.NBV
+    if cursor % F == 0:
+        blocks_left = mrl.NBV
+    extra = blocks_left - 1
+    if r >= B - 7:
+        return None
+    return mrl.aimed_payload_len(cursor % F if cursor % F else 0, qlen, r, extra) if blocks_left >= 1 else None
+
+
 class TwoPass(PropBase):
     """base histories are run once on the real crate; cases are derived from their traces"""
     base_quick = 24
@@ -480,6 +494,22 @@ class C06(PropBase):
     def gen_one(self, rng, i):
         g = HistGen(rng, policy=rng.choice(self.policies), max_payload=70000)
         g.run(rng.randrange(8, 40), weights={"create": 7, "delete": 6, "append": 50, "truncate": 30, "persist": 1, "restart": 6})
+        if i % 4 == 1:
+            # stale-file profile: a file loses its last reference through a roll-over caused by small
+            # control entries, then only no-op truncations follow
+            r = rng.choice([0, 3, 10, 19, 25, 40, 60, 100])
+            l = aim_file_end(0 + 7 + 12, 1, r)
+            cmds = ["open %s" % rng.choice(self.policies), "create =q"]
+            if l is not None and l > 0:
+                cmds.append("append =q - %d:7" % l)
+                cmds.append("truncate =q 0")
+                for k in range(rng.randrange(1, 8)):
+                    cmds.append(rng.choice(["truncate =q 0", "create =c%d" % k, "truncate =q 0", "append =q 0"]))
+                cmds.append("truncate =q 0")
+                if rng.random() < 0.5:
+                    cmds += ["drop", "open af", "truncate =q 0"]
+                self.stats["stale_profile"] = self.stats.get("stale_profile", 0) + 1
+                return cmds
         if i % 8 == 0:
             # the known exact-fit corner: an append that begins exactly at the end of a file
             g2 = ["open af", "create =q", "append =q - 131001:5", "append =q - 32000:6", "truncate =q 0", "drop", "open af"]
@@ -609,6 +639,15 @@ class C07(PropBase):
         if i % 4 != 3:
             self.stats["mem_cases"] = self.stats.get("mem_cases", 0) + 1
             return ["mem " + " ".join(self.aimed_entries(rng))]
+        if i % 8 == 3:
+            # the last entry ends 0..8 bytes before the end of the last block of the file, then restart,
+            # append, restart: the reader's final cursor must be the writer's
+            r = rng.choice([0, 1, 2, 3, 4, 5, 6, 7, 8])
+            l = aim_file_end(7 + 12, 1, r)
+            if l is not None and l > 0:
+                self.stats["file_end_cases"] = self.stats.get("file_end_cases", 0) + 1
+                return ["open af", "create =q", "append =q - %d:9" % l, "drop", "open af", "append =q - 10:1 3000:2",
+                        "append =q - 40000:3", "drop", "open af", "append =q - 5:4", "drop", "open af"]
         g = HistGen(rng, policy=rng.choice(self.policies), max_payload=70000)
         g.run(rng.randrange(6, 22), weights={"create": 6, "delete": 2, "append": 70, "truncate": 8, "persist": 2, "restart": 12})
         g.op_restart()
